@@ -730,8 +730,16 @@ def stage_params(ctx):
                     return holder["cls"]
                 return cls
             theory = th["make"](wrap)
-            with recording_solvers():
-                res = calc_field(det, scat, cfg["nm"], cfg["lam"], cfg["pol"], theory=theory)
+            try:
+                with recording_solvers():
+                    res = calc_field(det, scat, cfg["nm"], cfg["lam"], cfg["pol"], theory=theory)
+            except Exception as e:
+                ctx.corr_cases += 1
+                ctx.disagree("corr:params:%s:raises" % name,
+                             "calc_field with %s raises %s: %s on a generated configuration (unit %r)"
+                             % (name, type(e).__name__, str(e)[:120], u),
+                             dict(kind="corr-params", theory=name, cfg=cfg, unit=u, error=repr(e)[:300]))
+                continue
             calls = holder["cls"].flog
             cb = cb_value(cfg["sc"])
             expr = "flat_map flat_dl (dimensionless QO %s (fun _ => %s) %s %s)" % (PI_LIT, qlit(cb), th["lit"], cfg_lit(cfg, det))
@@ -887,7 +895,7 @@ def explore_one(ctx, name, api, base, s, subst, base_out=None):
     try:
         out = run_api(api, th["make"](), cfg)
     except Exception as e:  # the base configuration computed, the re-expressed one does not
-        ctx.violation("explore:%s:%s:%s:raises" % (name, api, kind),
+        ctx.violation("explore:%s:%s:raises" % (name, kind),
                       "%s of %s computes in the original units but raises %s: %s after %s (s=%r)"
                       % (api, name, type(e).__name__, str(e)[:120], kind, s), data)
         return base_out
@@ -905,7 +913,7 @@ def explore_one(ctx, name, api, base, s, subst, base_out=None):
         MAXERR[name] = max(MAXERR.get(name, 0.0), err)
     if not ok:
         data["rel_err"] = err
-        ctx.violation("explore:%s:%s:%s" % (name, api, kind),
+        ctx.violation("explore:%s:%s" % (name, kind),
                       "%s of %s changes under %s (s=%r): relative difference %r > %g" % (api, name, kind, s, err, tol), data)
     else:
         ctx.nontriv(("explore", name, api, kind, math.floor(math.log10(s) + 0.5)))
